@@ -391,3 +391,69 @@ def decide(res, prop, data, keyfn, corr_name, split=split_ms, describe=None):
 def tie_broken(res, name, detail):
     body = ("the proof obligation / correspondence '%s' no longer checks; no failing input was found.\n\n%s\n" % (name, detail))
     res.violation("broken-" + re.sub(r"[^A-Za-z0-9_.-]+", "_", name)[:60], body, no_input=True)
+
+
+# ---------------------------------------------------------------------------------------------------------------
+# Structure fingerprints of the Go functions a hand-written Lean transcription mirrors (harness/cmd/gofacts).
+# vlib/fingerprints/<PROP>.json = {"functions": {"<file>": ["Func", "Recv.Method", ...]},
+#                                  "lean": {"<file>:<Func>": "<Lean definition that transcribes it>"},
+#                                  "expected": {"<file>:<Func>": {digest, switches, calls, lits, shape, lines}}}
+# `./check --fingerprint <PROP>` prints the comparison; `./check --fingerprint <PROP> --update` records the current facts
+# (do that only after the correspondence has been re-validated against the changed functions).
+FPDIR = os.path.join(VERIF, "vlib", "fingerprints")
+
+def gofacts(functions, repo=None):
+    """Run gofacts on {file: [funcs]} against REPO's current working tree. Returns (facts, missing) or (None, error)."""
+    with Lock("go"):
+        binp = os.path.join(BUILD, "bin", "gofacts")
+        os.makedirs(os.path.dirname(binp), exist_ok=True)
+        rc, out = run(["go", "build", "-o", binp, "./cmd/gofacts"], cwd=HARNESS, env=goenv(), timeout=900)
+    if rc != 0: return None, "gofacts does not build: " + out[-800:]
+    os.makedirs(BUILD, exist_ok=True)
+    sp = os.path.join(BUILD, "gofacts_%d.json" % os.getpid())
+    json.dump(functions, open(sp, "w"))
+    rc, out = run([binp, "-repo", repo or REPO, "-spec", sp]); os.unlink(sp)
+    if rc != 0: return None, "gofacts failed: " + out[-800:]
+    d = json.loads(out)
+    return d["facts"], d["missing"]
+
+def fingerprint(res, prop):
+    """Compare the structure facts of the modelled Go functions with the recorded expectation.
+    Returns a list of (key, lean_def, kind, detail): kind = 'missing' (function gone / renamed), 'structure' (switch
+    cases, calls, literals or control-flow skeleton differ: the transcription may no longer mirror the function) or
+    'text' (only the digest differs: an edit that kept the structure). Nothing is decided here: the caller aims its
+    failing-input search at the changed functions and records the outcome; the correspondence remains the tie."""
+    path = os.path.join(FPDIR, prop + ".json")
+    if not os.path.exists(path): return []
+    spec = json.load(open(path))
+    facts, missing = gofacts(spec["functions"])
+    cov = res.coverage.setdefault("source_fingerprint", {})
+    if facts is None:
+        cov["error"] = missing; return [("gofacts", "", "missing", missing)]
+    changed = []
+    lean = spec.get("lean", {})
+    for k in missing: changed.append((k, lean.get(k, ""), "missing", "function not found in REPO"))
+    for k, exp in sorted(spec.get("expected", {}).items()):
+        got = facts.get(k)
+        if got is None: continue
+        diffs = [f for f in ("switches", "calls", "lits", "shape") if got.get(f) != exp.get(f)]
+        if diffs: changed.append((k, lean.get(k, ""), "structure", ",".join(diffs)))
+        elif got.get("digest") != exp.get("digest"): changed.append((k, lean.get(k, ""), "text", "digest"))
+    cov["functions"] = len(spec.get("expected", {}))
+    cov["changed"] = ["%s [%s: %s] -> %s" % c[:1] + (c[2], c[3], c[1]) if False else "%s [%s: %s] lean=%s" % (c[0], c[2], c[3], c[1]) for c in changed]
+    return changed
+
+def fingerprint_cli(prop, update=False):
+    path = os.path.join(FPDIR, prop + ".json")
+    spec = json.load(open(path))
+    facts, missing = gofacts(spec["functions"])
+    if facts is None: print(missing); return 2
+    if update:
+        spec["expected"] = facts
+        json.dump(spec, open(path, "w"), indent=1, sort_keys=True)
+        print("recorded %d functions (%d missing: %s)" % (len(facts), len(missing), " ".join(missing))); return 0
+    class R: coverage = {}
+    ch = fingerprint(R, prop)
+    for c in ch: print("%s\t%s\t%s\t%s" % (c[0], c[2], c[3], c[1]))
+    print("%d of %d modelled functions changed" % (len(ch), len(spec.get("expected", {}))))
+    return 0
